@@ -20,6 +20,15 @@ announced body is unsent (invariant expect_refused); (2) ClientSession(headers=.
 headers whose names repeat in different letter case, given as list / dict / CIMultiDict / MultiDict - the handler must
 see the per-request values of a name (all, in order) or else the session defaults of that name (request_roundtrip,
 keys header_merge:* and headers_mapping_view:*).
+
+Two more (same convention): (3) a body given as a file-like object that is neither BytesIO nor a regular file - a raw,
+unbuffered byte source (pipe / socket / RawIOBase wrapper) whose read(n) hands out what is available, i.e. fewer than n
+bytes although more follows, optionally wrapped in io.BufferedReader - as request body (data=) and as web.Response(body=);
+every byte the source yields before EOF must arrive (request_roundtrip / response_roundtrip, keys body:rawio*).
+(4) GET with a Range (and sometimes If-Range) header answered by web.FileResponse, with and without
+enable_compression(): the status, Content-Range and slice are judged against ref/static.py (RFC 9110 13.1.5, 14) and
+the body the caller reads must be exactly the slice that the response's own Content-Range names (response_roundtrip,
+keys range:* and body:file:range*).
 """
 from __future__ import annotations
 
@@ -35,6 +44,7 @@ import urllib.parse
 import zlib
 
 from ref import http1
+from ref import static as ref_static
 from sim.net import TICK
 from sim.world import World
 
@@ -55,7 +65,8 @@ LEVEL_TEXT = (
 LEVEL_NOTE = (
     "Trusted: the spec->expectation functions in this module (hand-checked vectors in oracle_selftest), "
     "ref/http1.split_responses (cuts the server's wire output; used for well-formedness and for the server's "
-    "framing/Connection choice), stdlib email/urllib/zlib/json as independent decoders, SimNet's TCP model. "
+    "framing/Connection choice), ref/static.evaluate (RFC 9110 13.1.5/14 range arithmetic: which status/slice a Range "
+    "request to a FileResponse may get), stdlib email/urllib/zlib/json as independent decoders, SimNet's TCP model. "
     "Bounds: <=6 exchanges per session, one session and one origin per run, bodies <=256 KiB, no TLS, no proxies, no "
     "redirects followed, no pipelining, handlers always read the whole request before answering. A second batch "
     "(20% of runs) adds one reset/EOF per run and relaxes the oracle to 'nothing wrong is delivered'. When a run "
@@ -73,7 +84,11 @@ RULE = (
     "ClientSession(version=1.0|1.1) x segmentation policy per direction and connection x latency x ties x read "
     "pauses on either side x executor mode x read_bufsize/write-buffer knobs x EOF lag x idle-timer settings; ~7% of runs "
     "have one expectation refused by a route expect_handler (raise/return/write x 403/417 x close), ~8% of runs use session "
-    "default headers and per-request headers that repeat names in other letter case (list/dict/CIMultiDict/MultiDict); batch "
+    "default headers and per-request headers that repeat names in other letter case (list/dict/CIMultiDict/MultiDict); "
+    "~10% of runs give one or two bodies (request data= / web.Response(body=)) as a raw file-like source with short reads "
+    "(caps 1..100000 per read, bare RawIOBase or inside io.BufferedReader), ~10% send GET with Range (closed / open-ended / "
+    "suffix / past-the-end / unsatisfiable, positions around chunk_size and the file end; sometimes If-Range) to a "
+    "FileResponse with or without enable_compression(); batch "
     "'reset' adds one reset/EOF at a byte offset or loop step. Non-trivial: >=2 exchanges completed and at least one "
     "connection was reused or closed by a decision of either end. Distinct = interleaving signature."
 )
@@ -394,6 +409,10 @@ def gen(rng, tier, index):
         add_expect_refusal(rng, scn)
     if rng.random() < P_HEADER_MIX:
         add_header_mix(rng, scn)
+    if rng.random() < P_RAWIO:
+        add_rawio(rng, scn)
+    if rng.random() < P_FILE_RANGE:
+        add_file_range(rng, scn)
     return scn
 
 
@@ -459,6 +478,149 @@ def add_header_mix(rng, scn):
             for _ in range(rng.choice([1, 2, 2, 3, 4])):
                 rq["headers"].insert(rng.randrange(len(rq["headers"]) + 1), list(rng.choice(MIX_HDR_POOL)))
             rq["headers_form"] = rng.choice(REQ_HDR_FORMS)
+
+
+# ---- extension 3: bodies given as a raw file-like byte source whose read(n) returns less than n before EOF
+P_RAWIO = 0.10
+# how many bytes the source has "available" at each successive read() (cycled); a read returns min(asked, cap, rest)
+RAWIO_CAPS = [[1], [7], [100], [1000, 1], [1024, 3900, 4], [2048], [2049, 2047], [65535], [65536, 1], [1, 65536], [100000],
+              [1 << 20]]
+RAWIO_WRAP = [None, None, None, "buffered"]
+
+
+class ShortReader(io.RawIOBase):
+    """A raw, unbuffered, unseekable byte source (what io.FileIO on a pipe/FIFO/character device, or
+    socket.makefile('rb', buffering=0), is to its reader): read(n) returns the bytes that are available now - at
+    least one, at most n - and b'' only at the end of the data (io.RawIOBase contract)."""
+
+    def __init__(self, data, caps, on_short=None):
+        super().__init__()
+        self._data, self._pos, self._caps, self._j, self._on_short = data, 0, caps, 0, on_short
+
+    def readable(self):
+        return True
+
+    def readinto(self, b):
+        rest = len(self._data) - self._pos
+        if rest <= 0 or len(b) == 0:
+            return 0
+        cap = max(1, self._caps[self._j % len(self._caps)])
+        self._j += 1
+        n = min(len(b), cap, rest)
+        b[:n] = self._data[self._pos:self._pos + n]
+        self._pos += n
+        if n < len(b) and n < rest and self._on_short is not None:
+            self._on_short()
+        return n
+
+
+def make_rawio(body, data, on_short=None):
+    raw = ShortReader(data, body["caps"], on_short)
+    return io.BufferedReader(raw, buffer_size=512) if body.get("wrap") == "buffered" else raw
+
+
+def _scn_biggest(scn):
+    exs = scn["exchanges"]
+    return max([ex[side]["body"].get("size", 0) for ex in exs for side in ("req", "resp")]
+               + [ex["req"]["body"].get("file", {}).get("size", 0) for ex in exs])
+
+
+def _ext_targets(rng, scn):
+    """one or two exchanges of the session that no other extension has claimed"""
+    free = [i for i, ex in enumerate(scn["exchanges"]) if not ex["req"].get("expect_refuse")]
+    rng.shuffle(free)
+    return sorted(free[:rng.choice([1, 1, 2])])
+
+
+def add_rawio(rng, scn):
+    heavy = _scn_biggest(scn) >= 65535  # (the segmentation/buffer knobs of the run were chosen for its largest body)
+    for i in _ext_targets(rng, scn):
+        ex = scn["exchanges"][i]
+        side = rng.choice(["req", "req", "resp", "resp", "both"])
+        for sd in (("req", "resp") if side == "both" else (side,)):
+            size = pick_size(rng, heavy)
+            if not heavy and size >= 65535:
+                size = rng.choice([300] + SIZES_MID)
+            # (every read is an executor job: keep a body to at most ~150 of them)
+            caps = [c for c in RAWIO_CAPS if size * len(c) <= 150 * sum(c)]
+            body = {"kind": "rawio", "k": rng.randrange(251), "size": size, "caps": list(rng.choice(caps)),
+                    "wrap": rng.choice(RAWIO_WRAP)}
+            if sd == "req":
+                rq = ex["req"]
+                if rq["method"].upper() == "HEAD":
+                    rq["method"] = "POST"
+                rq["body"] = body
+                rq["json_api"] = False
+            else:
+                rs = ex["resp"]
+                rs["body"] = body
+
+
+# ---- extension 4: GET + Range (If-Range) answered by web.FileResponse, with and without enable_compression()
+P_FILE_RANGE = 0.10
+FILE_MTIME_S = 1_600_000_000
+FILE_CHUNK_SIZES = [262144, 65536, 4096, 8191]
+
+
+def gen_range_value(rng, size, chunk):
+    """a valid single byte-range-spec (RFC 9110 14.1.1) positioned around the start, the read size and the end of a
+    representation of `size` bytes"""
+    anchors = sorted({0, 1, size // 3, max(0, size - 2), size - 1, min(size - 1, chunk - 1), min(size - 1, chunk),
+                      min(size - 1, 2 * chunk)})
+    r = rng.random()
+    if r < 0.55:
+        a = rng.choice(anchors)
+        b = a + rng.choice([0, 0, 1, 99, 99, chunk - 2, chunk - 1, chunk, 2 * chunk - 1, size])  # past the end: clamped by the server
+        return f"bytes={a}-{b}"
+    if r < 0.68:
+        return f"bytes={rng.choice(anchors)}-"
+    if r < 0.83:
+        return f"bytes=-{rng.choice([1, 2, 100, chunk, max(1, size - 1), size, size + 5])}"
+    if r < 0.92:
+        a = size + rng.choice([0, 1, 1000])  # unsatisfiable
+        return rng.choice([f"bytes={a}-", f"bytes={a}-{a + 10}"])
+    return f"bytes=0-{size - 1}"
+
+
+def add_file_range(rng, scn):
+    heavy = _scn_biggest(scn) >= 65535
+    for i in _ext_targets(rng, scn):
+        ex = scn["exchanges"][i]
+        rq, rs = ex["req"], ex["resp"]
+        if rq["method"].upper() != "GET":
+            rq["method"] = "GET"   # range handling is defined for GET only (RFC 9110 14.2)
+        rs["status"], rs["reason"] = 200, None   # ... and only where the answer without Range would be 200
+        b = rs["body"]
+        if b["kind"] != "file" or b["size"] == 0:
+            sizes = [s_ for s_ in FILE_SIZES if s_ > 0 and (heavy or s_ < 65535)]
+            rs["body"] = b = {"kind": "file", "k": b["k"], "size": rng.choice(sizes), "chunk_size": rng.choice(FILE_CHUNK_SIZES)}
+            rs["chunked"] = False
+        if rng.random() < 0.5:
+            rs["compress"] = rng.choice(["auto", "gzip", "deflate"])
+        hs = rq["headers"]
+        hs.insert(rng.randrange(len(hs) + 1), [rng.choice(["Range", "Range", "range"]), gen_range_value(rng, b["size"], b["chunk_size"])])
+        if rng.random() < 0.2:
+            # a date validator: the Last-Modified value itself (condition true) or an older one (false: Range is ignored)
+            hs.append(["If-Range", ref_static.http_date(FILE_MTIME_S - rng.choice([0, 0, 1, 86400]))])
+
+
+def file_range_expect(rq, rs):
+    """None: no Range request to a FileResponse.  'unjudged': outside what RFC 9110 14.2 defines (method other than GET,
+    or a response that would not be 200 without Range) or not a single Range field line.  Else ref_static.Expect: the
+    acceptable outcomes (full / partial[start:end] / unsat) for this request against the file."""
+    if rs["body"]["kind"] != "file":
+        return None
+    vals = [v for n, v in rq["headers"] if n.lower() == "range"]
+    if not vals:
+        return None
+    if len(vals) > 1 or rq["method"].upper() != "GET" or rs["status"] != 200 \
+            or sum(1 for n, _ in rq["headers"] if n.lower() == "if-range") > 1:
+        return "unjudged"
+    size = rs["body"]["size"]
+    return ref_static.evaluate("GET", [tuple(h) for h in rq["headers"]], size, FILE_MTIME_S, f"{FILE_MTIME_NS:x}-{size:x}")
+
+
+_CONTENT_RANGE = re.compile(r"bytes (\d+)-(\d+)/(\d+)")
 
 
 def expected_request_fields(scn, i, rq):
@@ -590,6 +752,22 @@ def shrink(scn):
                         yield _with_ex(scn, i, dict(ex, **{side: dict(spec, body=nb)}))
             if b.get("pieces") and len(b["pieces"]) > 1:
                 yield _with_ex(scn, i, dict(ex, **{side: dict(spec, body=dict(b, pieces=[sum(b["pieces"])]))}))
+            if b["kind"] == "rawio":
+                if b.get("wrap"):
+                    yield _with_ex(scn, i, dict(ex, **{side: dict(spec, body=dict(b, wrap=None))}))
+                if b["caps"] != [1 << 20]:
+                    yield _with_ex(scn, i, dict(ex, **{side: dict(spec, body=dict(b, caps=[1 << 20]))}))
+                    if len(b["caps"]) > 1:
+                        yield _with_ex(scn, i, dict(ex, **{side: dict(spec, body=dict(b, caps=b["caps"][:1]))}))
+            if b["kind"] == "file" and b.get("chunk_size") != 262144:
+                yield _with_ex(scn, i, dict(ex, **{side: dict(spec, body=dict(b, chunk_size=262144))}))
+        if rs["body"]["kind"] == "file":
+            # a Range request: try the plainest range that keeps the failure (first byte only, first 100 bytes)
+            for j, h in enumerate(rq["headers"]):
+                if h[0].lower() == "range":
+                    for simpler in ("bytes=0-0", "bytes=0-99"):
+                        if h[1] != simpler and rs["body"]["size"] > 100:
+                            yield _with_ex(scn, i, dict(ex, req=dict(rq, headers=rq["headers"][:j] + [[h[0], simpler]] + rq["headers"][j + 1:])))
 
 
 # --------------------------------------------------------------------------- expectations (the oracle's model)
@@ -626,7 +804,7 @@ def req_body_bytes(body):
     kind = body["kind"]
     if kind == "none":
         return b""
-    if kind in ("bytes", "bytearray", "agen", "bio"):
+    if kind in ("bytes", "bytearray", "agen", "bio", "rawio"):
         return bbytes(body["k"], body["size"])
     if kind == "str":
         return btext(body["k"], body["size"]).encode("utf-8")
@@ -648,7 +826,7 @@ def req_default_ctype(req):
     kind = req["body"]["kind"]
     if kind == "none":
         return "application/octet-stream" if req["method"].upper() in ("POST", "PUT", "PATCH") else None
-    if kind in ("bytes", "bytearray", "agen", "bio"):
+    if kind in ("bytes", "bytearray", "agen", "bio", "rawio"):
         return "application/octet-stream"
     if kind == "str":
         return "text/plain; charset=utf-8"
@@ -752,6 +930,33 @@ def oracle_selftest():
     assert not is_refused({"version": "1.0"}, {"expect_refuse": {"how": "raise"}, "expect100": True})
     assert not is_refused({"version": "1.1"}, {"expect_refuse": {"how": "raise"}, "expect100": False})
     assert not is_refused({"version": "1.1"}, {"expect100": True})
+    # the short-read source: RawIOBase contract (at least one byte, at most what is available, b"" only at the end)
+    sr = ShortReader(b"abcdef", [2, 1])
+    assert [sr.read(4), sr.read(4), sr.read(1), sr.read(65536), sr.read(9), sr.read(9), sr.read(9)] == [b"ab", b"c", b"d", b"e", b"f", b"", b""]
+    assert ShortReader(b"abcdef", [4]).readall() == b"abcdef" and ShortReader(b"", [1]).read(5) == b""
+    assert make_rawio({"caps": [1], "wrap": "buffered"}, b"abcdef").read(5) == b"abcde"
+    hits = []
+    ShortReader(b"abc", [5], lambda: hits.append(1)).read(3)
+    ShortReader(b"abc", [2], lambda: hits.append(2)).read(3)
+    assert hits == [2]
+    # Range requests to a FileResponse: RFC 9110 14.1.2 arithmetic comes from ref/static.py (own self-test there)
+    f300 = {"status": 200, "body": {"kind": "file", "size": 300, "chunk_size": 4096}}
+    rqr = lambda *hs, m="GET": {"method": m, "headers": [list(h) for h in hs]}
+    e_ = file_range_expect(rqr(("Range", "bytes=100-199")), f300)
+    assert [(o.kind, o.start, o.end) for o in e_.outcomes] == [("partial", 100, 200)], e_
+    e_ = file_range_expect(rqr(("X-A", "1"), ("range", "bytes=-1000")), f300)
+    assert [(o.kind, o.start, o.end) for o in e_.outcomes] == [("partial", 0, 300)], e_
+    e_ = file_range_expect(rqr(("Range", "bytes=250-9999")), f300)
+    assert [(o.kind, o.start, o.end) for o in e_.outcomes] == [("partial", 250, 300)], e_
+    assert [o.kind for o in file_range_expect(rqr(("Range", "bytes=300-")), f300).outcomes] == ["unsat"]
+    assert ref_static.http_date(FILE_MTIME_S) == "Sun, 13 Sep 2020 12:26:40 GMT" and FILE_MTIME_S * 10 ** 9 == FILE_MTIME_NS
+    e_ = file_range_expect(rqr(("Range", "bytes=0-0"), ("If-Range", "Sun, 13 Sep 2020 12:26:40 GMT")), f300)
+    assert [(o.kind, o.start, o.end) for o in e_.outcomes] == [("partial", 0, 1)], e_
+    e_ = file_range_expect(rqr(("Range", "bytes=0-0"), ("If-Range", "Sun, 13 Sep 2020 12:26:39 GMT")), f300)
+    assert [o.kind for o in e_.outcomes] == ["full"], e_
+    assert file_range_expect(rqr(("X-A", "1")), f300) is None and file_range_expect(rqr(("Range", "bytes=0-0"), m="POST"), f300) == "unjudged"
+    assert file_range_expect(rqr(("Range", "bytes=0-0")), {"status": 200, "body": {"kind": "bytes", "size": 3}}) is None
+    assert file_range_expect(rqr(("Range", "bytes=0-0")), dict(f300, status=404)) == "unjudged"
     # multipart reference decoder against a hand-written message
     body = (b"--BB\r\nContent-Type: text/plain; charset=utf-8\r\nContent-Disposition: form-data; name=\"f0\"\r\n\r\nv v\r\n"
             b"--BB\r\nContent-Type: application/octet-stream\r\nContent-Disposition: form-data; name=\"upl\"; filename=\"a.bin\"\r\n\r\n"
@@ -846,7 +1051,10 @@ def run(scn, ch, log=False):
         conns = {}      # sim_conn -> info
         seen = []       # handler records
         results = []    # caller records
-        state = {"serving": True, "seq": 0}
+        state = {"serving": True, "seq": 0, "short_reads": 0}
+
+        def count_short_read():
+            state["short_reads"] += 1
 
         # ------------------------------------------------------------------ network hooks
         def on_connect(ctr, str_):
@@ -903,6 +1111,15 @@ def run(scn, ch, log=False):
                 loop.sim_call_later(lag * TICK, fire)
 
             ctr._deliver_eof = deliver_eof
+
+            # when the client's end of this connection was lost (whatever the cause); observation only
+            lost_orig = ctr._call_connection_lost
+
+            def call_connection_lost(exc):
+                info.setdefault("c_lost", loop.steps)
+                lost_orig(exc)
+
+            ctr._call_connection_lost = call_connection_lost
 
             for p in scn["pauses"]:
                 if p["conn"] == n:
@@ -1068,6 +1285,8 @@ def run(scn, ch, log=False):
                 resp = web.Response(text=btext(b["k"], b["size"]), **kw)
             elif kind == "bio":
                 resp = web.Response(body=io.BytesIO(data), **kw)
+            elif kind == "rawio":
+                resp = web.Response(body=make_rawio(b, data, count_short_read), **kw)
             elif kind == "agen":
                 resp = web.Response(body=agen_pieces(split_pieces(data, b["pieces"]), b["delay"]), **kw)
             elif kind == "str_payload":
@@ -1154,6 +1373,8 @@ def run(scn, ch, log=False):
                 return btext(b["k"], b["size"])
             if kind == "bio":
                 return io.BytesIO(bbytes(b["k"], b["size"]))
+            if kind == "rawio":
+                return make_rawio(b, bbytes(b["k"], b["size"]), count_short_read)
             if kind == "agen":
                 return agen_pieces(split_pieces(bbytes(b["k"], b["size"]), b["pieces"]), 0)
             if kind == "payload":
@@ -1528,9 +1749,24 @@ def run(scn, ch, log=False):
             exp = req_body_bytes(body)
             kind = body["kind"]
             if exp is not None:
-                if raw != exp:
+                r_ = results[i] if i < len(results) else None
+                if raw != exp and kind == "rawio" and len(raw) < len(exp) and exp.endswith(raw) and r_ is not None and any(
+                        n_ != rec["conn"] and o_.get("c_lost") is not None and r_["start_step"] <= o_["c_lost"] <= rec["step"]
+                        for n_, o_ in conns.items()):
+                    # its own class: the client lost the connection it was sending this request on, sent the request
+                    # again on another one, and the copy that arrived lacks the front of the body - the bytes the first
+                    # attempt had taken from the (unseekable) source
+                    violate("request_roundtrip", "body:rawio:front_lost_when_resent_after_connection_loss",
+                            f"{tag}: the connection first used was lost during the exchange (step "
+                            f"{[o_['c_lost'] for n_, o_ in sorted(conns.items()) if n_ != rec['conn'] and o_.get('c_lost') is not None and r_['start_step'] <= o_['c_lost'] <= rec['step']]}), the "
+                            f"client sent the request again on connection {rec['conn']} and the handler read {len(raw)} bytes, the last "
+                            f"{len(raw)} of the {len(exp)} the source yields: the front was consumed by the first attempt and the "
+                            f"caller got no error; source read caps {body['caps']} wrap={body.get('wrap')} chunked={rq['chunked']!r} "
+                            f"compress={rq['compress']!r}")
+                elif raw != exp:
                     violate("request_roundtrip", "body:" + kind, f"{tag}: handler read {len(raw)} bytes, expected {len(exp)}; {_diff(raw, exp)}; "
-                            f"chunked={rq['chunked']!r} compress={rq['compress']!r} expect100={rq['expect100']}")
+                            f"chunked={rq['chunked']!r} compress={rq['compress']!r} expect100={rq['expect100']}"
+                            + (f"; source read caps {body['caps']} wrap={body.get('wrap')}" if kind == "rawio" else ""))
             elif kind in ("form_url", "dict"):
                 try:
                     pairs = urllib.parse.parse_qsl(raw.decode("ascii"), keep_blank_values=True, strict_parsing=bool(raw),
@@ -1562,12 +1798,51 @@ def run(scn, ch, log=False):
             b = rs["body"]
             tag = (f"exchange {i} ({rq['method']} -> {rs['status']} body={b['kind']} chunked={rs['chunked']} "
                    f"compress={rs['compress']} v{scn['version']})")
-            if res["status"] != rs["status"]:
+            # A Range request answered by FileResponse: the handler's response stands for the file; which part of it is
+            # selected (status, Content-Range, slice) is decided by RFC 9110 13.1.5/14 (ref/static.py)
+            rexp = file_range_expect(rq, rs)
+            if rexp == "unjudged":
+                return
+            exp_status, exp_slice = rs["status"], None
+            if rexp is not None:
+                state["range_judged"] = state.get("range_judged", 0) + 1
+                fsize = b["size"]
+                okinds = {o.kind for o in rexp.outcomes}
+                rvals = [v for n_, v in rq["headers"] if n_.lower() in ("range", "if-range")]
+                crs = hdr_groups(res["headers"]).get("content-range")
+                rtag = (f"{tag}: Range/If-Range {rvals!r} on a {fsize}-byte file (chunk_size {b['chunk_size']}; case "
+                        f"{rexp.cls}, acceptable {rexp.outcomes})")
+                st_ = res["status"]
+                if st_ == 200 and "full" in okinds:
+                    exp_slice = (0, fsize)
+                    if crs is not None:
+                        violate("response_roundtrip", "range:content_range_on_200", f"{rtag}: 200 with Content-Range {crs!r}")
+                elif st_ == 206 and "partial" in okinds:
+                    m_ = _CONTENT_RANGE.fullmatch(crs[0]) if crs is not None and len(crs) == 1 else None
+                    if m_ is None or int(m_.group(3)) != fsize or not int(m_.group(1)) <= int(m_.group(2)) < fsize:
+                        violate("response_roundtrip", f"range:content_range_invalid:{rexp.key_cls}",
+                                f"{rtag}: 206 with Content-Range {crs!r}, which is not a range of that file")
+                        return
+                    exp_slice = (int(m_.group(1)), int(m_.group(2)) + 1)
+                    if not any(o.kind == "partial" and (o.start, o.end) == exp_slice for o in rexp.outcomes):
+                        violate("response_roundtrip", f"range:wrong_slice:{rexp.key_cls}",
+                                f"{rtag}: 206 with Content-Range {crs!r}, not the range that was asked for")
+                        return
+                    state["range_206"] = state.get("range_206", 0) + 1
+                elif st_ == 416 and "unsat" in okinds:
+                    if crs is not None and crs != [f"bytes */{fsize}"]:
+                        violate("response_roundtrip", "range:content_range_on_416", f"{rtag}: 416 with Content-Range {crs!r}")
+                else:
+                    violate("response_roundtrip", f"range:status:{st_}_for_{rexp.key_cls}",
+                            f"{rtag}: caller saw status {st_} {res.get('reason')!r}; body head {_short(res.get('body'))}")
+                    return
+                exp_status = st_
+            if res["status"] != exp_status:
                 violate("response_roundtrip", f"status:{res['status']}_for_{_status_class(rs['status'], b, rq, rs)}",
                         f"{tag}: caller saw status {res['status']} {res.get('reason')!r}, handler returned {rs['status']}; "
                         f"body head {_short(res.get('body'))}")
                 return
-            ereason = rs["reason"] if rs["reason"] is not None else reason_default(rs["status"])
+            ereason = rs["reason"] if rs["reason"] is not None and exp_status == rs["status"] else reason_default(exp_status)
             if res["reason"] != ereason.strip():
                 violate("response_roundtrip", "reason", f"{tag}: caller saw reason {res['reason']!r}, expected {ereason!r}")
             if res["version"] != version_t:
@@ -1583,7 +1858,7 @@ def run(scn, ch, log=False):
                     violate("response_roundtrip", "header_value:" + (name if name in AUTO_RESP else "custom"),
                             f"{tag}: header {name!r} set to {_short(vals)} but caller saw {_short(got.get(name))}")
             _check_combined(violate, "response_roundtrip", tag, got, res["combined"])
-            allowed = AUTO_RESP | (AUTO_RESP_FILE if b["kind"] == "file" else set())
+            allowed = AUTO_RESP | (AUTO_RESP_FILE if b["kind"] == "file" else set()) | ({"content-range"} if rexp is not None else set())
             for name in got:
                 if name not in spec and name not in allowed:
                     violate("response_roundtrip", "header_unexpected", f"{tag}: caller saw header {name!r}={_short(got[name])} the handler never set")
@@ -1592,10 +1867,14 @@ def run(scn, ch, log=False):
                 want_cookies[name] = val
             if res["cookies"] != want_cookies:
                 violate("response_roundtrip", "cookies", f"{tag}: caller saw cookies {res['cookies']!r}, handler set {want_cookies!r}")
-            bodyless = rq["method"].upper() == "HEAD" or rs["status"] in (204, 304)
+            bodyless = rq["method"].upper() == "HEAD" or exp_status in (204, 304)
             body = res["body"]
             ce = got.get("content-encoding")
             exp = b"" if bodyless else resp_body_bytes(b)
+            if rexp is not None and not bodyless:
+                if exp_slice is None:
+                    return  # 416: the representation of the error is the server's own; nothing of the file may be judged
+                exp = exp[exp_slice[0]:exp_slice[1]]
             # which content-coding may the server have applied
             if rs["compress"] is None or rs["compress"] == "identity":
                 if ce is not None and "content-encoding" not in spec:
@@ -1634,9 +1913,13 @@ def run(scn, ch, log=False):
                         f"{tag}: the connection was reset (connection_lost(ConnectionResetError)) after {len(body)} of {len(exp)} body "
                         f"bytes of a close-delimited response, yet the caller got the truncated body without any error")
             elif body != exp and not cut_ok:
-                violate("response_roundtrip", "body:" + ("bodyless" if bodyless else b["kind"]) + (":compressed" if ce else ""),
+                violate("response_roundtrip", "body:" + ("bodyless" if bodyless else b["kind"]) + (":range" if rexp is not None else "")
+                        + (":compressed" if ce else ""),
                         f"{tag}: caller read {len(body)} bytes, expected {len(exp)}; {_diff(body, exp)}; "
-                        f"Content-Encoding={ce!r} Content-Length={got.get('content-length')!r} TE={got.get('transfer-encoding')!r}")
+                        f"Content-Encoding={ce!r} Content-Length={got.get('content-length')!r} TE={got.get('transfer-encoding')!r}"
+                        + (f"; Range/If-Range {[v for n_, v in rq['headers'] if n_.lower() in ('range', 'if-range')]!r}, "
+                           f"Content-Range {got.get('content-range')!r}, chunk_size {b['chunk_size']}" if rexp is not None else "")
+                        + (f"; source read caps {b['caps']} wrap={b.get('wrap')}" if b["kind"] == "rawio" else ""))
             cl = got.get("content-length")
             if cl is not None and not bodyless and not ce and cl != [str(len(exp))]:
                 violate("response_roundtrip", "content_length_vs_body", f"{tag}: Content-Length {cl!r}, body has {len(exp)} bytes")
@@ -1954,6 +2237,9 @@ def run(scn, ch, log=False):
             probes["expect_refused_conn_reused_unsent"] = sum(1 for sg in all_segs if sg.get("refused_unsent") and sg["next"] is not None)
             probes["expect_refused_then_next_completed"] = sum(
                 1 for r in seen if r.get("refused") and r["ex"] + 1 < len(results) and results[r["ex"] + 1]["done"])
+        probes["rawio_short_reads"] = state["short_reads"]
+        probes["range_judged"] = state.get("range_judged", 0)
+        probes["range_206"] = state.get("range_206", 0)
         if scn.get("session_headers"):
             probes["hdr_mix_session_defaults"] = 1
             probes["hdr_mix_case_dups"] = sum(
@@ -1984,7 +2270,9 @@ def run(scn, ch, log=False):
             "probes": {k: v for k, v in probes.items() if v},
             "shape": f"{scn['batch']}-v{scn['version']}-{len(exchanges)}ex-{scn['net']['pol_c2s'][0]}/{scn['net']['pol_s2c'][0]}"
                      + ("+refuse" if any(is_refused(scn, ex["req"]) for ex in exchanges) else "")
-                     + ("+hdrmix" if scn.get("session_headers") else ""),
+                     + ("+hdrmix" if scn.get("session_headers") else "")
+                     + ("+rawio" if any(ex[sd_]["body"]["kind"] == "rawio" for ex in exchanges for sd_ in ("req", "resp")) else "")
+                     + ("+range" if any(file_range_expect(ex["req"], ex["resp"]) is not None for ex in exchanges) else ""),
         }
         if log:
             res["event_log"] = loop.event_log
@@ -2145,6 +2433,15 @@ PROPOSED_KNOWN_FINDINGS = [
   "key_regex": "headers_mapping_view:one_entry_per_spelling_of_a_name",
   "summary": "HeadersDictProxy (request.headers / response.headers) looks names up case-insensitively and joins all field lines of a name with ', ' (helpers.py:788-789), but __iter__ and __len__ de-duplicate the keys of the underlying CIMultiDict case-sensitively (helpers.py:794-802, a set of the spellings as received): a message carrying 'x-dup: a' and 'X-Dup: b' yields both spellings as keys, each mapped to 'a, b', so len() is too large and dict(headers)/headers.items() (e.g. a proxy copying the fields) repeat the values",
   "example": "GET / with field lines 'x-dup: a' and 'X-Dup: b': list(request.headers.items()) contains ('x-dup', 'a, b') and ('X-Dup', 'a, b')"
+ },
+ {
+  "id": "C02-F17",
+  "property": "C02",
+  "status": "known",
+  "invariant": "request_roundtrip",
+  "key_regex": "body:rawio:front_lost_when_resent_after_connection_loss",
+  "summary": "A request with an unseekable file-like body (IOBasePayload/BufferedReaderPayload over a pipe, socket file or other RawIOBase source) that is retried after its reused keep-alive connection was lost goes out with the front of the body missing - often with an empty body - and the caller gets no error. ClientSession._request decides whether the payload can be replayed with 'await req._close(); if req._body.consumed: raise' (client.py:735-746), but IOBasePayload only learns that it cannot rewind inside the executor job of its first read (payload.py:608-610 submits _read_and_available_len, which calls _set_or_restore_start_position, payload.py:472-478: tell() fails -> _consumed = True). When the connection dies while that job is still queued or running, the writer task is cancelled at 'await loop.run_in_executor(...)', ClientRequest._close (client_reqrep.py:1533-1543) waits for the writer task only and not for the job, 'consumed' is still False, and the request is rebuilt from the same payload ('data = req._body; continue'). The orphaned job then runs all the same (cancelling the asyncio future does not stop a thread-pool job), marks the payload consumed too late and takes the first chunk (up to 256 KiB) from the source; its result is discarded. The second attempt reads on from there: the handler receives a well-framed body that lacks those bytes, with a 2xx answer. The documented intent ('If the payload is already consumed and cannot be replayed' -> raise) is missed only through this ordering.",
+  "example": "server keepalive_timeout=0.002 (or any idle close racing the next request); session.delete(url, data=<io.BufferedReader / io.RawIOBase over a pipe, 1 byte available>) as second request of the session: the pooled connection gets its FIN just after the writer task submitted its first read; the request is resent on a new connection with Transfer-Encoding: chunked and an empty body; request.read() in the handler returns b''"
  }
 ]
 
